@@ -23,6 +23,10 @@ BASES = {
     'pseudo': 'li t0, 0x20000000',
     'include_bytes': 'include_bytes blob.bin 4',
     'align': 'align 4',
+    'bytes': 'bytes 1 2 0x3',
+    'dw': 'dw 0xdeadbeef',
+    'hi': 'lui a0, %hi(target)',
+    'amo': 'amoadd.w t0, a0, a1, 1, 0',
 }
 
 # region kinds: (description, builder(base, chars) -> list of code points, number of symbolic characters, char domain)
@@ -30,8 +34,9 @@ REGIONS = {
     'trailing_comment': 8,
     'tight_comment': 8,
     'whole_line_comment': 8,
-    'indent': 3,
+    'indent': 6,
     'separators': 2,
+    'separators_all': 2,
 }
 BLANKS = (0x20, 0x09)
 KEYWORDS = ('string', 'error', 'include', 'include_bytes', 'align', 'db', 'pack', 'bytes')
@@ -50,6 +55,22 @@ def lexsym_task(base_name, region, n):
     n_ok = 0
 
     def build(p):
+        if region == 'separators_all':
+            # every separator run of the base line becomes one blank plus n symbolic blanks / commas
+            import re as _r
+            parts = [x for x in _r.split(r'[\s,]+', base) if x]
+            out = []
+            k = 0
+            for j, part in enumerate(parts):
+                if j:
+                    out.append(0x20)
+                    for _ in range(n):
+                        c = p.int('c%d' % k, lo=0, hi=0x7f)
+                        k += 1
+                        p.assume(Or(*[c == a for a in BLANKS + (0x2c,)]))
+                        out.append(c)
+                out += [ord(ch) for ch in part]
+            return out
         if region in ('indent', 'separators'):
             # blanks: each symbolic character is a space or a tab (a comma too between operands)
             chars = []
@@ -176,7 +197,7 @@ def lexsym_specs(tier):
         for region, n in REGIONS.items():
             if region == 'whole_line_comment' and b != 'insn':
                 continue
-            if region == 'separators' and b in ('label', 'const', 'charlit'):
+            if region in ('separators', 'separators_all') and b in ('label', 'const', 'charlit', 'base_offset', 'hi'):
                 continue
             k = n + (4 if tier == 'thorough' and 'comment' in region else 0)
             specs.append(('harness.lexsym', 'lexsym_task', (b, region, k)))
